@@ -518,6 +518,18 @@ func TestSubscriberStacks(t *testing.T) {
 				t.Fatalf("violation: subscriber_messages_received_total acked=%d nacked=%d, harness settled %d acked / %d nacked (layers %v)", a, nn, wantA, wantN, layers)
 			}
 		}
+		// a message may be on its way through the stack, not yet read by anybody, when the subscription ends
+		pending := rapid.IntRange(0, 2).Draw(t, "unreadMessageInTheStackWhenTheSubscriptionEnds") == 0
+		if pending {
+			if _, ok := subs[0].Emit(message.NewMessage("never-read", nil), "", 0, lib.Live); !ok {
+				t.Fatalf("violation: the decorator stack did not take the next message from the inner subscriber")
+			}
+			time.Sleep(time.Millisecond)
+			if rapid.Bool().Draw(t, "subscriptionContextCancelledFirst") {
+				cancel()
+				time.Sleep(time.Millisecond)
+			}
+		}
 		// Close passes through and the output channel closes
 		done := make(chan error, 1)
 		go func() { done <- sub.Close() }()
@@ -572,11 +584,18 @@ func TestSubscriberStacks(t *testing.T) {
 				}
 			}
 		}
-		cls := []string{fmt.Sprintf("sub-depth=%d", n), fmt.Sprintf("settled-after-close=%v", lateMsg != nil)}
+		if pending && nMetrics > 0 {
+			// nobody received that message and nobody settled it: it is in no count
+			time.Sleep(5 * time.Millisecond)
+			if a, nn := counterCounts(reg, "subscriber_messages_received_total"); a != wantA || nn != wantN {
+				t.Fatalf("violation: subscriber_messages_received_total acked=%d nacked=%d although the harness settled %d acked / %d nacked: a message that was still unread in the decorator stack when the subscription ended (never received, never settled) was counted (layers %v)", a, nn, wantA, wantN, layers)
+			}
+		}
+		cls := []string{fmt.Sprintf("sub-depth=%d", n), fmt.Sprintf("settled-after-close=%v", lateMsg != nil), fmt.Sprintf("unread-message-at-end=%v", pending)}
 		if nMetrics >= 2 {
 			cls = append(cls, "sub-metrics-twice")
 		}
-		lib.Case(fmt.Sprintf("sub|%v|%v|%v", layers, acks, lateSettle), n >= 2 || wantN > 0, cls...)
+		lib.Case(fmt.Sprintf("sub|%v|%v|%v|%v", layers, acks, lateSettle, pending), n >= 2 || wantN > 0, cls...)
 		lib.Sample(map[string]any{"test": "SubscriberStacks", "layers": fmt.Sprint(layers), "acks": fmt.Sprint(acks)})
 	})
 }
